@@ -24,6 +24,7 @@ import (
 	"github.com/free5gc/chf/internal/logger"
 	"github.com/free5gc/chf/internal/rating"
 	"github.com/free5gc/chf/internal/util"
+	"github.com/free5gc/chf/internal/verifhook"
 	Nchf_ConvergedCharging "github.com/free5gc/openapi/chf/ConvergedCharging"
 	"github.com/free5gc/openapi/models"
 )
@@ -46,6 +47,7 @@ func (p *Processor) NotifyRecharge(ueId string, rg int32) {
 	}
 
 	// If it is previosly set to debit mode due to quota exhausted, need to reverse to the reserve mode
+	verifhook.At("recharge.write", "ue", ue)
 	ue.RatingType[rg] = charging_datatype.REQ_SUBTYPE_RESERVE
 	reauthorizationDetails = append(reauthorizationDetails, models.ReauthorizationDetails{
 		RatingGroup: rg,
@@ -169,6 +171,8 @@ func (p *Processor) ChargingDataCreate(
 	ue.CULock.Lock()
 	// released on every return path, including a panic recovered by the HTTP layer
 	defer ue.CULock.Unlock()
+	verifhook.At("create.locked", "ue", ue)
+	defer verifhook.At("create.unlocking", "ue", ue)
 	ue.NotifyUri = chargingData.NotifyUri
 
 	consumerId := chargingData.NfConsumerIdentification.NFName
@@ -263,6 +267,8 @@ func (p *Processor) ChargingDataUpdate(
 
 	ue.CULock.Lock()
 	defer ue.CULock.Unlock()
+	verifhook.At("update.locked", "ue", ue)
+	defer verifhook.At("update.unlocking", "ue", ue)
 
 	// the session must exist before any credit control is performed for it
 	cdr, ok := ue.Cdr[chargingSessionId]
@@ -402,6 +408,8 @@ func (p *Processor) ChargingDataRelease(
 
 	ue.CULock.Lock()
 	defer ue.CULock.Unlock()
+	verifhook.At("release.locked", "ue", ue)
+	defer verifhook.At("release.unlocking", "ue", ue)
 
 	// the session must exist before any credit control is performed for it
 	cdr, ok := ue.Cdr[chargingSessionId]
